@@ -212,6 +212,8 @@ func (p SpendPolicy) Verify(height uint64, medianTimestamp time.Time, sigHash Ha
 				return nil
 			}
 			return fmt.Errorf("threshold not reached: remaining signatures %v", p.SignaturesRequired)
+		case nil:
+			return errors.New("policy is empty")
 		default:
 			panic("invalid policy type") // developer error
 		}
